@@ -293,11 +293,14 @@ func dominatingConds(b *ssa.BasicBlock) []struct {
 		}
 		for k, s := range I.Succs {
 			if len(s.Preds) == 1 && s.Dominates(b) {
-				inner, flip := stripNot(ifi.Cond)
-				out = append(out, struct {
-					cond ssa.Value
-					val  bool
-				}{inner, (k == 0) != flip})
+				// (with what the outcome says about the operands of an `a || b` / `a && b` that
+				// was compiled to a boolean phi, as in `case a || b:`)
+				for _, f := range impliedFacts(ifi.Cond, k == 0, 0) {
+					out = append(out, struct {
+						cond ssa.Value
+						val  bool
+					}{f.v, f.val})
+				}
 			}
 		}
 	}
@@ -1890,6 +1893,16 @@ func phiWebBounds(ph *ssa.Phi) (lo, hi int64, ok bool) {
 			}
 		case *ssa.BinOp:
 			k, isC := constInt(x.Y)
+			if cl, isL := x.Y.(*ssa.Call); isL && !isC && (x.Op == token.ADD || x.Op == token.SUB) && (isCallTo(cl, "builtin", "", "len") || isCallTo(cl, "builtin", "", "cap")) {
+				// a step by a length: of unknown size but never negative
+				if x.Op == token.ADD {
+					pos = true
+				} else {
+					neg = true
+				}
+				rec(x.X)
+				return
+			}
 			if !isC || (x.Op != token.ADD && x.Op != token.SUB) {
 				good = false
 				return
